@@ -20,7 +20,7 @@ func init() {
 	register(&explore.Prop{
 		ID: "C14", Level: levelMC, Explorer: "E2 path mode (build histories, deterministic pool, owned map order) + E4 schedule explorer (concurrent builders)",
 		Instr: true,
-		Rule: "instrumented build: sync.Pool replaced by a deterministic LIFO pool, every `range` over a map iterates in an order the explorer chooses. Histories: a menu of 12 batches chosen to leave different residue in the pooled builder (more/fewer fields, terms, postings, locations; doc values on/off; larger then smaller; composite fields naming the same field under different schemas; a build that FAILS with an unknown chunk mode); every history of length <=3 (thorough <=4) followed by every target, under chunk modes {1025, 2}; map order: for every map-range site reached, reverse and rotated orders as single deviations; schedules: 2 threads x 2 builds and 3 threads x 1 build of different batches at preemption bound 2 (scheduling points at pool/once operations and written package-level state); " +
+		Rule: "instrumented build: sync.Pool replaced by a deterministic LIFO pool, every `range` over a map iterates in an order the explorer chooses. Histories: a menu of 13 batches chosen to leave different residue in the pooled builder (more/fewer fields, terms, postings, locations; doc values on/off; larger then smaller; composite fields naming the same field under different schemas; a 41-field batch whose later documents carry only 2-3 of the fields; a build that FAILS with an unknown chunk mode); every history of length <=3 (thorough <=4) followed by every target, under chunk modes {1025, 2}; map order: for every map-range site reached, reverse and rotated orders as single deviations; schedules: 2 threads x 2 builds and 3 threads x 1 build of different batches at preemption bound 2 (scheduling points at pool/once operations and written package-level state); " +
 			"oracle: bytes(target | history, order, schedule) == bytes(target | cold start, sorted order, alone); non-trivial = the pool held a recycled builder when the target build started (VerifInterimPool + PoolLen) / schedule has a preemption",
 		Assumptions: []string{"the deterministic pool models sync.Pool as LIFO reuse; the real pool may also drop objects (equivalent to a cold start, which is the baseline)", "bounded histories/menus (DESIGN.md 5 C14)", "preemption bound 2, <=3 threads; statement-level atomicity"},
 		Budget:      qBudget, Run: runC14,
@@ -66,7 +66,27 @@ func c14Menu() [][]model.Doc {
 		// field id of "n" is 1 in the first and 3 in the second
 		composite([]string{"n"}),
 		composite([]string{"a", "b", "n"}),
+		wide(40),
 	}
+}
+
+// wide: a batch with many fields of which most documents carry only a few (sparse documents: 2 or
+// 3 of 41 fields stored / indexed / with doc values), so that per-document work that is
+// proportional to the field count invites "sparse" shortcuts.
+func wide(n int) []model.Doc {
+	name := func(i int) string { return fmt.Sprintf("w%02d", i) }
+	fld := func(i, doc int) model.Field {
+		return model.Field{N: name(i), Len: 1, St: true, Val: []byte(fmt.Sprintf("v%d.%d", i, doc)), DV: i%2 == 0,
+			Terms: []model.Term{{T: fmt.Sprintf("t%d", (i+doc)%3), Freq: 1, Locs: []model.Loc{{P: 1, S: 0, E: 1}}}}}
+	}
+	d0 := model.Doc{gen.IDField("w", 0)}
+	for i := 0; i < n; i++ {
+		d0 = append(d0, fld(i, 0))
+	}
+	d1 := model.Doc{gen.IDField("w", 1), fld(23, 1), fld(7, 1)}            // descending field ids
+	d2 := model.Doc{gen.IDField("w", 2), fld(31, 2), fld(2, 2), fld(16, 2)} // mixed order
+	d3 := model.Doc{gen.IDField("w", 3), fld(5, 3), fld(5, 3), fld(38, 3)}  // a repeated field
+	return []model.Doc{d0, d1, d2, d3}
 }
 
 // composite: documents with the given plain fields and a composite field "zall" whose locations
